@@ -16,8 +16,6 @@ import (
 // allocLimit: a decoder fed len bytes has no business allocating more than this (DESIGN §6 C08 item 6).
 func allocLimit(n int) uint64 { return 64<<20 + 16*uint64(n) }
 
-const blockSize = 512 // fault points handled by one leaf
-
 // offsets at which a stream of n bytes is cut / a writer fails: all of them for objects up to 4 KiB
 // (thorough: always all), otherwise the first 256, every 64th and the last 8.
 func faultOffsets(n int, tier string) []int {
@@ -36,20 +34,19 @@ func faultOffsets(n int, tier string) []int {
 	return r
 }
 
-func blocks(n int) int {
-	if n == 0 {
-		return 1
-	}
-	return (n + blockSize - 1) / blockSize
-}
-
 // faultDecoders: the reading entry points that are driven with damaged input. ReadFrom(io.Reader) is the
 // same code as ReadFrom(bufio.Reader) behind a wrapper and ReadFrom(buffer.Buffer) the same as
 // UnmarshalBinary wherever the latter exists; JSON only where it is a different encoding.
 func faultDecoders(o *cached) []decoder {
 	var r []decoder
-	for _, d := range availDecoders(o.a) {
+	for _, d := range availDecoders(o) {
 		switch d.name {
+		case "UnmarshalBinary":
+			// MarshalBinary output that is WriteTo's plus padding (a wrong BinarySize, reported by family 1):
+			// cutting inside the padding is not a truncated object
+			if o.binOK && o.wbinOK && len(o.bin) != len(o.wbin) && (bytes.HasPrefix(o.bin, o.wbin) || bytes.HasPrefix(o.wbin, o.bin)) {
+				continue
+			}
 		case "ReadFrom(io.Reader)":
 			continue
 		case "ReadFrom(buffer.Buffer)":
@@ -80,34 +77,29 @@ func famTruncation(x *lc) {
 	d := ds[x.c.Choose(len(ds), "decoder")]
 	ref, _ := x.o.ref(d)
 	offs := faultOffsets(len(ref), x.c.Tier)
-	b := x.c.Choose(blocks(len(offs)), "offset-block")
 	x.c.Cover("trunc-decoder", d.name)
-	lo, hi := b*blockSize, (b+1)*blockSize
-	if hi > len(offs) {
-		hi = len(offs)
-	}
 	var jobs []job
-	for _, L := range offs[lo:hi] {
-		jobs = append(jobs, job{Seed: x.seed, Entry: x.e.name, Vi: x.vi, Op: "decode", Decoder: d.name, Cut: L})
+	for _, L := range offs {
+		jobs = append(jobs, job{Op: "decode", Decoder: d.name, Cut: L})
 	}
 	errs := 0
-	for i, r := range runJobs(jobs) {
-		L := offs[lo+i]
-		what := fmt.Sprintf("%s of the first %d of %d bytes", d.name, L, len(ref))
+	for i, r := range runJobs(x.header(&d), jobs) {
+		what := fmt.Sprintf("%s of the first %d of %d bytes", d.name, offs[i], len(ref))
 		switch {
+		case r.NotRun:
+			x.c.Cover("helper", "rest-of-batch-not-executed-after-3-fatal-or-giant-allocation-events")
+		case r.Fatal == "out-of-memory" || r.Alloc > allocLimit(len(ref)):
+			x.failAlloc("truncation", declName(x.o.obj, d.method), r, what, len(ref))
 		case r.Fatal != "" || r.Panic != "":
 			x.failResult("truncation", r, what)
 		case r.Err == "":
-			x.c.Fail(sig("truncation", declName(x.o.obj, d.method), "silent-success"), "%s [%s]: %s returned no error", x.e.name, x.e.vals[x.vi].label, what)
+			x.c.Fail(sig("truncation", declName(x.o.obj, d.method), "silent-success"), "%s [%s]: %s returned no error", x.e.name, x.label(), what)
 		default:
 			errs++
 		}
-		if r.Alloc > allocLimit(len(ref)) {
-			x.c.Fail(sig("truncation", declName(x.o.obj, d.method), "unbounded-alloc"), "%s: %s allocated %d bytes", x.e.name, what, r.Alloc)
-		}
 	}
-	x.c.Count(hi - lo)
-	x.c.Outcome(x.name, d.name, b, errs)
+	x.c.Count(len(jobs))
+	x.c.Outcome(x.name, d.name, errs)
 }
 
 // ---------------------------------------------------------------------------------------------
@@ -217,11 +209,11 @@ func corruptValues(ref []byte, f field) (vals [][]byte) {
 // Writing 2^31 into a length that the decoder passes to make() unchecked asks the runtime for tens of
 // gigabytes: with a memory limit that is "fatal error: out of memory" (the worker and every scenario queued
 // behind it are gone), without one it is a multi-GiB allocation per attempt. The fields are therefore probed
-// first with the value 2^20 (harmless: at most a few dozen MiB). A field whose probe allocates >= 1 byte per
+// first with the value 2^19 (harmless: at most a couple of dozen MiB). A field whose probe allocates >= 1 byte per
 // claimed element - for an input that cannot contain a fraction of them - is an unchecked length: it is
 // reported (slope and extrapolation in the message, confirmed by ONE real allocation above the limit per
-// object and decoder) and every corruption that would set it to >= 2^20 is skipped, not executed.
-const probeLen = 1 << 20
+// object and decoder) and every corruption that would set it to >= 2^19 is skipped, not executed.
+const probeLen = 1 << 19
 
 type danger struct {
 	field
@@ -252,7 +244,7 @@ func getField(data []byte, f field) uint64 {
 }
 
 func (x *lc) corruptJob(d decoder, off int, patch []byte, check bool) job {
-	return job{Seed: x.seed, Entry: x.e.name, Vi: x.vi, Op: "decode", Decoder: d.name, Cut: -1, Off: off, Patch: patch, Check: check}
+	return job{Op: "decode", Decoder: d.name, Cut: -1, Off: off, Patch: patch, Check: check}
 }
 
 func (x *lc) dangers(d decoder, ref []byte) []danger {
@@ -263,6 +255,7 @@ func (x *lc) dangers(d decoder, ref []byte) []danger {
 		return r
 	}
 	var r []danger
+	hdr := x.header(&d)
 	if !isJSONText(ref) {
 		confirmed := false
 		enc := func(f field, v uint64) []byte {
@@ -282,15 +275,15 @@ func (x *lc) dangers(d decoder, ref []byte) []danger {
 				data := append([]byte(nil), ref...)
 				putField(data, f, probeLen)
 				if tooDangerous(r, data, o, o+w) {
-					continue // overlaps a length already found: this write would set that one to >= 2^20
+					continue // overlaps a length already found: this write would set that one to >= 2^19
 				}
-				out := runJob(x.corruptJob(d, o, enc(f, probeLen), false))
+				out := runJob(hdr, x.corruptJob(d, o, enc(f, probeLen), false))
 				if out.Fatal != "" || out.Alloc < probeLen || out.Alloc <= 16*uint64(len(ref))+1<<16 {
 					continue
 				}
 				dz := danger{field: f, alloc: out.Alloc}
 				if w == 8 {
-					if o2 := runJob(x.corruptJob(d, o, enc(f, 1<<63), false)); o2.Panic != "" {
+					if o2 := runJob(hdr, x.corruptJob(d, o, enc(f, 1<<63), false)); o2.Panic != "" {
 						dz.site = o2.Site
 					}
 				}
@@ -301,7 +294,7 @@ func (x *lc) dangers(d decoder, ref []byte) []danger {
 					for float64(v)*float64(out.Alloc)/probeLen <= float64(allocLimit(len(ref))) {
 						v <<= 1
 					}
-					o3 := runJob(x.corruptJob(d, o, enc(f, v), false))
+					o3 := runJob(hdr, x.corruptJob(d, o, enc(f, v), false))
 					switch {
 					case o3.Fatal != "":
 						dz.confirmed = fmt.Sprintf("confirmed: with the field set to 2^%d the process was killed (fatal error: %s)", bits.Len64(v)-1, o3.Fatal)
@@ -319,7 +312,7 @@ func (x *lc) dangers(d decoder, ref []byte) []danger {
 	return r
 }
 
-// tooDangerous: the corrupted data would set a known allocation-driving length to >= 2^20.
+// tooDangerous: the corrupted data would set a known allocation-driving length to >= 2^19.
 func tooDangerous(dz []danger, data []byte, lo, hi int) bool {
 	for _, z := range dz {
 		if z.off < hi && lo < z.off+z.width {
@@ -348,20 +341,13 @@ func famCorruption(x *lc) {
 		x.c.Skip("empty encoding")
 		return
 	}
-	const perLeaf = 8
-	nb := (len(fs) + perLeaf - 1) / perLeaf
-	b := x.c.Choose(nb, "field-block")
 	x.c.Cover("corrupt-decoder", d.name)
-	hi := (b + 1) * perLeaf
-	if hi > len(fs) {
-		hi = len(fs)
-	}
 	dz := x.dangers(d, ref)
-	subj := declName(x.o.obj, d.method)
+	subj := baseDecl(x.o.obj, d.method)
 	rejected, accepted, skipped := 0, 0, 0
 	var jobs []job
 	var whats []string
-	for _, f := range fs[b*perLeaf : hi] {
+	for _, f := range fs {
 		x.c.Cover("corrupt-width", fmt.Sprint(f.width))
 		w := f.width
 		if w == 0 {
@@ -373,7 +359,7 @@ func famCorruption(x *lc) {
 				if z.site != "" {
 					s, k = z.site, "unchecked-length" // same signature as the panics the same field causes there
 				}
-				msg := fmt.Sprintf("%s [%s] via %s: the %d-byte field at offset %d is an unchecked length: set to 2^20 the decoder allocated %d KiB for a %d-byte input (%.1f bytes per claimed element, i.e. %.0f GiB at 2^31); larger values are not executed",
+				msg := fmt.Sprintf("%s [%s] via %s: the %d-byte field at offset %d is an unchecked length: set to 2^19 the decoder allocated %d KiB for a %d-byte input (%.1f bytes per claimed element, i.e. %.0f GiB at 2^31); larger values are not executed",
 					x.e.name, x.e.vals[x.vi].label, d.name, w, f.off, z.alloc>>10, len(ref), float64(z.alloc)/probeLen, float64(z.alloc)/probeLen*2)
 				if z.confirmed != "" {
 					msg += "; " + z.confirmed
@@ -392,15 +378,19 @@ func famCorruption(x *lc) {
 			whats = append(whats, fmt.Sprintf("%s with the %d-byte field at offset %d set to %x", d.name, w, f.off, val))
 		}
 	}
-	for i, r := range runJobs(jobs) {
+	for i, r := range runJobs(x.header(&d), jobs) {
 		what := whats[i]
 		switch {
+		case r.NotRun:
+			x.c.Cover("helper", "rest-of-batch-not-executed-after-3-fatal-or-giant-allocation-events")
+			continue
+		case r.Fatal == "out-of-memory" || r.Alloc > allocLimit(len(ref)):
+			// an allocation request far beyond the input size: the same event whether the runtime could satisfy it
+			// (then decoding went on, which is not looked at) or killed the process
+			x.failAlloc("corruption", subj, r, what, len(ref))
+			continue
 		case r.Fatal != "" || r.Panic != "":
 			x.failResult("corruption", r, what)
-			continue
-		case r.Alloc > allocLimit(len(ref)):
-			x.c.Fail(sig("corruption", subj, "unbounded-alloc"), "%s [%s]: %s allocated %d MiB for an input of %d bytes (err=%q)",
-				x.e.name, x.e.vals[x.vi].label, what, r.Alloc>>20, len(ref), r.Err)
 			continue
 		case r.Err != "":
 			rejected++
@@ -424,7 +414,20 @@ func famCorruption(x *lc) {
 	if skipped > 0 {
 		x.c.Cover("corrupt-result", "not-executed-beyond-reported-unchecked-length")
 	}
-	x.c.Outcome(x.name, d.name, b, rejected, accepted, skipped)
+	x.c.Outcome(x.name, d.name, rejected, accepted, skipped)
+}
+
+// failAlloc reports an allocation request above the limit, under the function that made it when known.
+func (x *lc) failAlloc(family, subj string, r result, what string, n int) {
+	site, fate := r.AllocSite, fmt.Sprintf("the decoder allocated %d MiB (err=%q)", r.Alloc>>20, r.Err)
+	if r.Fatal != "" {
+		site, fate = r.FatalSite, fmt.Sprintf("THE PROCESS WAS KILLED (fatal error: out of memory, request of %d MiB)", r.Alloc>>20)
+	}
+	if site == "" || site == "unknown" {
+		x.c.Fail(sig(family, subj, "unbounded-alloc"), "%s [%s]: %s, a %d-byte input: %s", x.e.name, x.label(), what, n, fate)
+		return
+	}
+	x.c.Fail(sig(family, site, "unchecked-length"), "%s [%s]: %s, a %d-byte input: %s in %s", x.e.name, x.label(), what, n, fate, site)
 }
 
 // ---------------------------------------------------------------------------------------------
@@ -440,14 +443,9 @@ func famWriterFailure(x *lc) {
 	n := len(x.o.wbin)
 	offs := faultOffsets(n, x.c.Tier)
 	wk := x.c.Choose(len(failingWriters), "failing-writer")
-	b := x.c.Choose(blocks(len(offs)), "offset-block")
 	x.c.Cover("failing-writer", failingWriters[wk])
-	lo, hi := b*blockSize, (b+1)*blockSize
-	if hi > len(offs) {
-		hi = len(offs)
-	}
 	errs := 0
-	for _, k := range offs[lo:hi] {
+	for _, k := range offs {
 		var o outcome
 		switch wk {
 		case 0: // the library wraps the writer itself: the error has to come out of WriteTo
@@ -471,11 +469,11 @@ func famWriterFailure(x *lc) {
 		case o.panicked != nil:
 			x.failPanic("writer-failure", o, what)
 		case o.err == nil:
-			x.c.Fail(sig("writer-failure", declName(x.o.obj, "WriteTo"), "silent-success:"+failingWriters[wk]), "%s [%s]: %s returned no error", x.e.name, x.e.vals[x.vi].label, what)
+			x.c.Fail(sig("writer-failure", declName(x.o.obj, "WriteTo"), "silent-success:"+failingWriters[wk]), "%s [%s]: %s returned no error", x.e.name, x.label(), what)
 		default:
 			errs++
 		}
 	}
-	x.c.Count(hi - lo)
-	x.c.Outcome(x.name, wk, b, errs)
+	x.c.Count(len(offs))
+	x.c.Outcome(x.name, wk, errs)
 }
